@@ -199,6 +199,22 @@ def w_inverse(ctx, rng, i):
             opt = "%s/%g" % (type(t.kernel).__name__, t.min_singular_val)
         if hasattr(t, "allow_mirror"):
             opt = "mirror=%s" % t.allow_mirror
+    # a work buffer refilled in place between two round trips through the warp and its inverse (same array object, new contents)
+    from menpo.transform.piecewiseaffine.base import AbstractPWA as _PWA
+    if isinstance(t, _PWA) and t.has_true_inverse and rng.random() < 0.5:
+        tl_ = np.asarray(t.source.trilist)
+        buf = gen.points_inside_mesh(rng, t.source.points, tl_, 8, margin=0.08)
+        for rnd in range(2):
+            want = buf.copy()
+            try:
+                back = inv.apply(t.apply(buf))
+            except Exception as e:
+                ctx.fail("inverse_rejects_points_of_its_domain", cls=type(t).__name__, mech="reused_buffer:" + type(e).__name__)
+                break
+            ctx.tap("round_trip_through_a_reused_buffer", "calls"); ctx.tap("round_trip_through_a_reused_buffer", "checked")
+            if tx.maxdiff(back, want) > 1e-7 * tx.BOX:
+                ctx.fail("inverse_does_not_undo_from_the_left", cls=type(t).__name__, mech="buffer_refilled_in_place" if rnd else "first_use", err=tx.maxdiff(back, want))
+            buf[...] = gen.points_inside_mesh(rng, t.source.points, tl_, 8, margin=0.08)
     # histories: inverse of the inverse restores the map (and for alignments source/target)
     if rng.random() < 0.5:
         inv2 = inv.pseudoinverse()
